@@ -211,9 +211,9 @@ func c06Extra(t *gorm.DB) string {
 	}
 	var cl []string
 	for k, c := range st.Clauses {
-		if c.Expression != nil || k == "ON CONFLICT" {
-			cl = append(cl, k)
-		}
+		// EVERY entry with its shape: entries without an Expression (cleared, hint-decorated, markers) count too
+		cl = append(cl, fmt.Sprintf("%s:%s%s%s%s%s", k, c06xBit(c.Expression != nil), c06xBit(c.BeforeExpression != nil),
+			c06xBit(c.AfterNameExpression != nil), c06xBit(c.AfterExpression != nil), c06xBit(c.Builder != nil)))
 	}
 	sort.Strings(cl)
 	if t.Error == nil { // a failed finisher stops at an arbitrary point of the build
@@ -601,9 +601,9 @@ type c06Gen struct {
 	used     []bool  // chain instance already consumed
 	where    [][]int // per handle: kinds of the elements of its WHERE list (0 plain/And, 1 single Or, 2 Not)
 	retN     []int   // per handle: number of Returning merges with columns on its path (-1 = RETURNING *)
-	scoped   []bool // per handle: has pending Scopes
-	ptrAlias []bool // per handle: shares its *Statement with another reusable handle (Session / Session{NewDB} of or from a reusable handle)
-	inTx     []bool // per handle: descends from Begin (a nested Begin is an error, not a chain)
+	scoped   []bool  // per handle: has pending Scopes
+	ptrAlias []bool  // per handle: shares its *Statement with another reusable handle (Session / Session{NewDB} of or from a reusable handle)
+	inTx     []bool  // per handle: descends from Begin (a nested Begin is an error, not a chain)
 	nextAtom int
 	clean    bool // avoid the shapes of the listed findings
 	begins   int
